@@ -98,6 +98,12 @@ func c19ClassifyRest(t c19Case, tree, shape, literal string, sh c19ShResult, bas
 		// and the group's parentheses become literal characters, so the
 		// interpreter finds fewer names (usually none)
 		return "star-before-star-group"
+	case c19EscapedStarInLiteralComponent(t.Word) && (shKept || nullglob && len(shL) == 0) && !baNone:
+		// (reached with the star quoted as '*') a path component without
+		// pattern syntax but with a quoted metacharacter, next to components
+		// that are patterns: the component is looked up with the quoting
+		// backslash still in it ("a\*"), so nothing is found
+		return "quoted-metacharacter-in-literal-component"
 	case nullglob && c19BracketSpansSlash(shape) && len(shL) == 0 && baKept:
 		// "[" ... "/" ... "]": for bash not a pattern at all (kept even with
 		// nullglob); sh treats it as a pattern without matches
@@ -324,6 +330,17 @@ func c19HasWildcardStart(w string, globstar bool) bool {
 		case comp[0] == '?', comp[0] == '[', comp[0] == '*':
 			return true
 		case len(comp) > 1 && comp[1] == '(' && strings.IndexByte("@!+", comp[0]) >= 0:
+			return true
+		}
+	}
+	return false
+}
+
+// c19EscapedStarInLiteralComponent: some component of w has an escaped star
+// and no pattern syntax of its own.
+func c19EscapedStarInLiteralComponent(w string) bool {
+	for _, comp := range strings.Split(w, "/") {
+		if strings.Contains(comp, `\*`) && !c19PlainMeta(comp) && !c19HasExtSyntax(comp) {
 			return true
 		}
 	}
